@@ -136,7 +136,8 @@ fn has_big_number(text: &str) -> bool {
             run = 0;
         }
     }
-    text.contains('*')
+    // a product, or a cast of a float (an infinity from a division by 0.0 saturates to i64::MIN / MAX)
+    text.contains('*') || text.contains("int(")
 }
 
 fn clip(s: &str) -> String {
